@@ -41,13 +41,12 @@ def default_dtype(dt):
         torch.set_default_dtype(old)
 
 
-def tol_for(l, defdt, argdt):
-    """float64 everywhere: 1e-10.  float32 arguments but float64 arithmetic (default float64): the result can only be as
-    good as the float32 angle after `% 2π` in float32: 4e-6·(l+1).  float32 arithmetic (matrix_exp of a matrix of norm
-    ≈ 2π·l by scaling and squaring in float32): 2e-5·(l+1)."""
-    if argdt == torch.float64:
-        return TOL64
-    return 4e-6 * (l + 1) if defdt == torch.float64 else 2e-5 * (l + 1)
+def tol_for(l, argdt):
+    """`wigner_D` computes in the dtype of its ARGUMENTS (generators are built in float64 and cast to the angles'
+    dtype), whatever the default dtype is.  float64 arguments: 1e-10.  float32 arguments: `% 2π`, three matrix_exp
+    (scaling and squaring of a matrix of norm ≈ 2π·l) and two products in float32 — measured over the grid / random /
+    strata sets, seeds 0-2, l ≤ 11, all clauses: ≤ 5.3e-6·(2l+1); tolerance with 3× margin."""
+    return TOL64 if argdt == torch.float64 else 1.5e-5 * (2 * l + 1)
 
 
 # ------------------------------------------------------------------------------------------------
@@ -187,6 +186,17 @@ def run(ctx: Ctx):
             if dev > 1e-13 or X.dtype != torch.float64:
                 ctx.violation(f"so3_generators/table/{l}", {"call": f"o3.so3_generators({l})", "default_dtype": "float64",
                                                             "max_abs_dev_vs_exact_model": dev, "dtype": str(X.dtype)}, True)
+
+    with default_dtype(torch.float32):
+        for l in ls_all:
+            X = o3.so3_generators(l)
+            dev = (X.double() - model.X[l]).abs().max().item()
+            note("so3_generators_f32_default_vs_model", dev)
+            ctx.case(f"so3_generators({l}) float32 default", nontrivial=l > 0)
+            # returned in the default dtype; since 50789b1 computed in float64 first: one float32 rounding of entries ≤ l
+            if dev > 6e-8 * max(l, 1) or X.dtype != torch.float32:
+                ctx.violation(f"so3_generators/table-float32/{l}", {"call": f"o3.so3_generators({l})", "default_dtype": "float32",
+                                                                    "max_abs_dev_vs_exact_model": dev, "dtype": str(X.dtype)}, True)
 
     # ---- (1) discrete model: driver C03 ------------------------------------------------------------
     fixed_irreps = ["1o", "0e", "0e+1o+2e", "2x1o+0x3e+0e+2e", "3x0o", "1e+1e+1o", "5e+0o+2x2o+4e", "0x1e", "",
@@ -401,7 +411,7 @@ def run(ctx: Ctx):
         exact64 = defdt == torch.float64 and argdt == torch.float64
         with default_dtype(defdt):
             for l in ls:
-                tol = tol_for(l, defdt, argdt)
+                tol = tol_for(l, argdt)
                 for name, ang64 in sets.items():
                     if name == "large" and argdt == torch.float32:
                         continue  # float32 angles of size 40 lose 1e-6 absolute already in the argument
@@ -418,13 +428,15 @@ def run(ctx: Ctx):
                         note(f"{clause}[def={str(defdt)[6:]},arg={str(argdt)[6:]}]", dev[i])
                         if dev[i] > tol:
                             bad.append((clause, l, ang[min(i, ang.shape[0] - 1)].tolist(), float(dev[i]), tol, name))
+                    if D.dtype != argdt:
+                        bad.append(("dtype", l, ang[0].tolist(), str(D.dtype), str(argdt), name))
                     rec("accuracy-vs-model", (D64 - ref).abs().amax(dim=(1, 2)))
                     rec("orthogonal", (D64 @ D64.transpose(-1, -2) - eye).abs().amax(dim=(1, 2)))
                     Dinv = o3.wigner_D(l, -c, -b, -a).to(torch.float64)
                     rec("inverse=transpose", (Dinv - D64.transpose(-1, -2)).abs().amax(dim=(1, 2)))
                     # periodicity
                     Dp = o3.wigner_D(l, a + TWO_PI, b - TWO_PI, c + 2 * TWO_PI).to(torch.float64)
-                    rec("periodic", (Dp - D64).abs().amax(dim=(1, 2)) if argdt == torch.float64 else (Dp - D64).abs().amax(dim=(1, 2)) / 4)
+                    rec("periodic", (Dp - D64).abs().amax(dim=(1, 2)))
                     # homomorphism: g1·g2 computed (i) by a well-conditioned Euler decomposition of R1·R2 in float64,
                     # (ii) by o3.compose_angles (its matrix_to_angles uses acos: half the digits are lost when the
                     # product lands near β∈{0,π} — conditioning of C12's function, measured separately)
@@ -457,8 +469,8 @@ def run(ctx: Ctx):
                 D0 = o3.wigner_D(l, z, z, z)
                 if not torch.equal(D0.to(torch.float64), torch.eye(2 * l + 1, dtype=torch.float64)):
                     bad.append(("identity", l, [0, 0, 0], float((D0.to(torch.float64) - torch.eye(2 * l + 1, dtype=torch.float64)).abs().max()), 0.0, "identity"))
-                # result dtype: promotion of the argument dtype with the default dtype
-                want = torch.promote_types(argdt, defdt)
+                # result dtype: the dtype of the arguments, under either default dtype
+                want = argdt
                 if D0.dtype != want:
                     bad.append(("dtype", l, [0, 0, 0], str(D0.dtype), str(want), "identity"))
         return bad
@@ -470,11 +482,21 @@ def run(ctx: Ctx):
             ctx.log(f"oracles {tag}: {len(bad)} failures")
             if not bad:
                 continue
+            numeric = [t for t in bad if isinstance(t[3], float)]
+            dtypes = [t for t in bad if not isinstance(t[3], float)]
+            if dtypes:
+                cl, l, ang, got, want, name = dtypes[0]
+                ctx.violation(f"wigner_D/dtype/{tag}", {
+                    "l": l, "angles": ang, "result_dtype": got, "expected_dtype(=argument dtype)": want,
+                    "n_failures": len(dtypes)}, True)
+            if not numeric:
+                continue
             if defdt == torch.float32 and argdt == torch.float64:
-                # DESIGN §8: generators are built in the default dtype, float64 arguments only get ~1e-7
+                # DESIGN §8 / fixed in 50789b1: the generators used to be built in the default dtype, so float64 arguments
+                # only got ~1e-7; this key fires again whenever float64 arguments lose accuracy under float32 default
                 by_clause = {}
-                for cl, l, ang, dev, tol, name in bad:
-                    if isinstance(dev, float) and (cl not in by_clause or dev > by_clause[cl][2]):
+                for cl, l, ang, dev, tol, name in numeric:
+                    if cl not in by_clause or dev > by_clause[cl][2]:
                         by_clause[cl] = (l, ang, dev)
                 cl, (l, ang, dev) = max(by_clause.items(), key=lambda kv: kv[1][2])
                 with default_dtype(torch.float32):
@@ -483,15 +505,15 @@ def run(ctx: Ctx):
                     "call": f"torch.set_default_dtype(torch.float32); o3.wigner_D({l}, *torch.tensor({ang}, dtype=torch.float64))",
                     "l": l, "angles": ang, "clause": cl, "achieved_abs_error": dev, "required": TOL64,
                     "achieved_by_clause": {k: {"l": v[0], "angles": v[1], "dev": v[2]} for k, v in by_clause.items()},
-                    "result_dtype": "float64", "so3_generators_dtype_under_float32_default": Xd,
-                    "cause": "so3_generators/su2_generators/change_basis_real_to_complex build X in the default dtype; "
-                             "alpha*X promotes to float64 but X carries float32 rounding",
+                    "so3_generators_dtype_under_float32_default": Xd,
+                    "cause": "float64 arguments must be served by float64 generators and float64 matrix_exp whatever the default "
+                             "dtype is (before 50789b1 X was built in the default dtype and carried float32 rounding)",
                     "same_inputs_under_float64_default": "error < 1e-13 (this run)"}, True)
             else:
-                cl, l, ang, dev, tol, name = max(bad, key=lambda t: t[3] if isinstance(t[3], float) else 1.0)
+                cl, l, ang, dev, tol, name = max(numeric, key=lambda t: t[3] / t[4])
                 ctx.violation(f"wigner_D/{cl.replace(' ', '-')}/{tag}", {
                     "l": l, "angles": ang, "clause": cl, "deviation": dev, "tolerance": tol, "angle_set": name,
-                    "n_failures": len(bad), "first": [list(map(str, b)) for b in bad[:5]]}, True)
+                    "n_failures": len(numeric), "first": [list(map(str, b)) for b in numeric[:5]]}, True)
 
     # ---- (4) Irrep.D_from_* : parity, improper elements, the four input forms (float64) -----------
     with default_dtype(torch.float64):
@@ -561,14 +583,14 @@ def run(ctx: Ctx):
                     if k not in polar or dev > polar[k]["dev"]:
                         polar[k] = {"beta": be, "dev": dev, "dev_quaternion_form": devq, "alpha": float(aa[0]), "gamma": float(cc[0])}
         worst64 = max((v["dev"] / TOL64, k) for k, v in polar.items() if k[0] == "float64")
-        worst32 = max((v["dev"] / tol_for(k[1], torch.float64, torch.float32), k) for k, v in polar.items() if k[0] == "float32")
+        worst32 = max((v["dev"] / tol_for(k[1], torch.float32), k) for k, v in polar.items() if k[0] == "float32")
         ctx.notes["D_from_matrix_near_polar_strata"] = {f"{k[0]} l={k[1]}": v for k, v in polar.items()}
         if worst64[0] > 1 or worst32[0] > 1:
             k64, k32 = worst64[1], worst32[1]
             ctx.violation("Irrep.D_from_matrix/near-polar-stratum-acos", {
                 "call": f"R = o3.angles_to_matrix(0.3, {polar[k64]['beta']}, 0.5); o3.Irrep({k64[1]},1).D_from_matrix(R)  (float64)",
                 "float64": {"l": k64[1], **polar[k64], "required": TOL64},
-                "float32": {"l": k32[1], **polar[k32], "required": tol_for(k32[1], torch.float64, torch.float32)},
+                "float32": {"l": k32[1], **polar[k32], "required": tol_for(k32[1], torch.float32)},
                 "reference": "model D of a well-conditioned (atan2) YXY decomposition of the same matrix R, float64",
                 "cause": "matrix_to_angles → xyz_to_angles takes beta = acos(R[1,1]): for beta→0,π an error ε in R[1,1] becomes ε/sin(beta) "
                          "(√ε at the stratum); D_from_quaternion / D_from_axis_angle / compose_angles go through the same function",
@@ -644,7 +666,7 @@ def run(ctx: Ctx):
         "D(g1 g2)=D(g1)D(g2) for l≥2 and 'the four input forms give equal matrices' for l≥2 rest on the named unproved lemma WignerDHom / wignerD_factors_through_SO3 (Mathlib has no Lie group–Lie algebra correspondence); carried by the correspondence stream at 1e-10",
         "k is modelled as an integer; p**k for non-integer k (NaN for odd p) is outside the model",
         "batching/broadcasting of the real functions is checked on examples only",
-        "the float clause is checked against the float64 model at the given (float32/float64) argument values; tolerance 4e-6·(l+1) for float32 arguments",
+        "the float clause is checked against the float64 model at the given (float32/float64) argument values; wigner_D computes in the argument dtype under either default dtype (result dtype = argument dtype); tolerance 1e-10 for float64 arguments, 1.5e-5·(2l+1) for float32 arguments (3× the worst achieved)",
     ]
 
 
@@ -662,7 +684,7 @@ def replay(ctx, path):
         torch.set_default_dtype(torch.float32)
         D = o3.wigner_D(l, *t)
         e = float((D - ref).abs().max())
-        print(f"wigner_D({l}, {ang}) under float32 default: dtype {D.dtype}, |Δ| vs float64 default = {e:.3e}")
+        print(f"wigner_D({l}, {ang}) with float64 angles under float32 default: dtype {D.dtype}, |Δ| vs float64 default = {e:.3e}")
         return 1 if e > TOL64 else 0
     if key == "Irreps.D_from_angles/empty-irreps":
         try:
